@@ -68,7 +68,9 @@ JS0 == [m |-> "code", q |-> 0, re |-> TRUE, kw |-> <<>>, ts |-> <<>>, ls |-> TRU
 JSEndWord(j) == IF j.kw = <<>> THEN j
                 ELSE [j EXCEPT !.kw = <<>>, !.re = (j.kw \in ReKw), !.o = Append(@, TW), !.ls = FALSE]
 JSPunct(j, ps, re) == [j EXCEPT !.m = "code", !.o = @ \o ps, !.re = re, !.ls = FALSE]
-JSBadNL(j) == [j EXCEPT !.m = "code", !.o = Append(@, TBAD), !.re = TRUE, !.ls = TRUE]
+\* a raw line terminator inside a string / regex literal: not JavaScript any more.  The reference is
+\* undefined from here on ("err" is absorbing, its slot is "undefined"); TBAD stays in the signature.
+JSBadNL(j) == [j EXCEPT !.m = "err", !.o = Append(@, TBAD), !.re = TRUE, !.ls = TRUE, !.kw = <<>>, !.ts = <<>>, !.q = 0]
 
 \* add d to the open-brace count of the innermost substitution (saturating at 0 and 3: finite state)
 JSTopAdd(ts, d) == IF ts = <<>> THEN ts
@@ -136,7 +138,7 @@ JSDo(j, c) ==
     [] j.m = "lt3" -> IF c = 45 THEN [j EXCEPT !.m = "lc", !.u = 0] ELSE JSDo(JSPunct(j, <<P(60), P(33), P(45)>>, TRUE), c)
     [] j.m = "d1" -> IF c = 45 THEN [j EXCEPT !.m = "d2"] ELSE JSDo(JSPunct(j, <<P(45)>>, TRUE), c)
     [] j.m = "d2" -> IF c = 62 /\ j.ls THEN [j EXCEPT !.m = "lc", !.u = 0] ELSE JSDo(JSPunct(j, <<P(45), P(45)>>, TRUE), c)
-    [] OTHER -> j      \* "ovf": absorbing
+    [] OTHER -> j      \* "ovf", "err": absorbing
 
 JSStep(j, c) == JSDo([j EXCEPT !.o = <<>>], c)
 
